@@ -1316,13 +1316,21 @@ pub fn run(ctx: &Ctx) -> ! {
     let honests: Vec<Honest> = dbs.iter().map(Honest::new).collect();
 
     // self-check of the harness' independent digests/root against the real digester
+    // (not fatal: when the tree under test changes the digester, the harness' own digests remain
+    // the reference for "the certified file" and the client's verdicts below are judged against
+    // them; the difference is recorded in the evidence)
+    let mut self_check_differences = vec![];
     for h in &honests {
         if let Err(e) = pool.with(|w| self_check(w, h)) {
-            rep.machinery_error(format!("self-check failed: {e}"));
-            rep.finish(ctx);
+            self_check_differences.push(e.chars().take(400).collect::<String>());
         }
     }
-    rep.extra("self_check", json!(format!("independent SHA-256 digests and MKTree root equal CardanoImmutableDigester::compute_merkle_tree / compute_digests_for_range on {} untampered directories", honests.len())));
+    if self_check_differences.is_empty() {
+        rep.extra("self_check", json!(format!("independent SHA-256 digests and MKTree root equal CardanoImmutableDigester::compute_merkle_tree / compute_digests_for_range on {} untampered directories", honests.len())));
+    } else {
+        eprintln!("[C10] the real digester disagrees with the independent SHA-256 reference on {} untampered directories; verdicts are judged against the reference", self_check_differences.len());
+        rep.extra("self_check", json!({"real_digester_differs_from_independent_reference_on": self_check_differences.len(), "first": self_check_differences.first()}));
+    }
 
     let mut work: Vec<(usize, Case)> = vec![];
     let mut per_db = vec![];
